@@ -43,7 +43,8 @@ pub fn replay_bin(target: &str, path: &Path) -> Result<CaseResult, String> {
 
 pub fn run(rc: &RunCtx, prop: &Property) -> Vec<FamilyReport> {
     let mut reports = Vec::new();
-    let fuzz_dir = rc.verif_dir.join("fuzz");
+    let fuzz_dir = rc.verif_dir.join("harness").join("fuzz");
+    let project_dir = rc.verif_dir.join("harness");
     let my: Vec<_> = fuzz_entry::targets().into_iter().filter(|t| t.1 == prop.id).collect();
     if my.is_empty() || !fuzz_dir.exists() {
         return reports;
@@ -100,7 +101,7 @@ pub fn run(rc: &RunCtx, prop: &Property) -> Vec<FamilyReport> {
     // 2. bounded campaigns (thorough)
     let build = std::process::Command::new("cargo")
         .args(["+nightly", "fuzz", "build"])
-        .current_dir(&fuzz_dir)
+        .current_dir(&project_dir)
         .env("CARGO_NET_OFFLINE", "true")
         .output();
     match build {
@@ -122,6 +123,7 @@ pub fn run(rc: &RunCtx, prop: &Property) -> Vec<FamilyReport> {
         })
         .map(|(name, max_len, runs, seeded)| {
             let fuzz_dir = fuzz_dir.clone();
+            let project_dir = project_dir.clone();
             let seed = rc.seed;
             let prop_id = prop.id.to_string();
             let verif_dir = rc.verif_dir.clone();
@@ -147,7 +149,7 @@ pub fn run(rc: &RunCtx, prop: &Property) -> Vec<FamilyReport> {
                     .arg("-rss_limit_mb=4096")
                     .arg("-malloc_limit_mb=1024")
                     .arg("-print_final_stats=1");
-                cmd.current_dir(&fuzz_dir).env("CARGO_NET_OFFLINE", "true");
+                cmd.current_dir(&project_dir).env("CARGO_NET_OFFLINE", "true");
                 let out = cmd.output();
                 let mut rep = FamilyReport { family: format!("libfuzzer:{name}:{}", if seeded { "seeded" } else { "empty" }), ..Default::default() };
                 if let Ok(o) = out {
